@@ -1,6 +1,7 @@
 /-
 State that outlives a simulation inside the native engine.  `Gen.CppNumeric.staticDecls` (regenerated from engine.cpp and
-the eight algorithm headers on every run) lists every `static` / `thread_local` declaration.
+the eight algorithm headers on every run) lists every `static` / `thread_local` declaration, `preprocessorLines` every `#` line
+and `fpEnvTokens` every access to the floating-point environment (thread-wide state that would outlive a simulation).
 -/
 import Strengths.Gen.CppNumeric
 
@@ -12,5 +13,26 @@ besides the globals of engine.cpp inventoried for C08/C10 (`Gen.EngineLife.globa
 in the algorithm object that the set-up creates, so nothing computed for one simulation can be read by the next
 (`C08.init_ignores_past`, `C10.setup_after_finalize_clean` rest on this) -/
 theorem no_function_static_state : staticDecls = [] := by decide +kernel
+
+/-- **the engine never touches the floating-point environment or other process-wide numeric state**: no SSE control-register
+intrinsic, no `<cfenv>` call, no `_controlfp`, no inline assembly, no `setlocale`.  The model (and C08's "a trajectory is a
+function of script, engine kind and seed") reads every `double` operation as a function of its operands — IEEE default
+rounding with gradual underflow; a simulation that switches the thread to flush-to-zero, or changes the rounding mode,
+changes what every LATER simulation (and numpy) computes in the same process. -/
+theorem no_fp_environment_access : fpEnvTokens = [] := by decide +kernel
+
+/-- the complete list of preprocessor lines of the engine: the standard headers `<iostream>`, `<random>`, `<chrono>`, the
+eight algorithm headers, and the optional CPython module stub; no `#define`, no `#pragma` (in particular nothing that
+changes floating-point contraction or optimisation), no further system header (`<xmmintrin.h>`, `<cfenv>`, `<csignal>`, …) -/
+theorem preprocessor_lines :
+    preprocessorLines =
+      [("engine.cpp", "#include <iostream>"), ("engine.cpp", "#include <random>"),
+       ("engine.cpp", "#include \"SimulationAlgorithm3DBase.hpp\""), ("engine.cpp", "#include \"Euler3D.hpp\""),
+       ("engine.cpp", "#include \"TauLeap3D.hpp\""), ("engine.cpp", "#include \"Gillespie3D.hpp\""),
+       ("engine.cpp", "#include \"SimulationAlgorithmGraphBase.hpp\""), ("engine.cpp", "#include \"EulerGraph.hpp\""),
+       ("engine.cpp", "#include \"TauLeapGraph.hpp\""), ("engine.cpp", "#include \"GillespieGraph.hpp\""),
+       ("engine.cpp", "#include <chrono>"), ("engine.cpp", "#ifdef CPYEMVER"), ("engine.cpp", "#include <Python.h>"),
+       ("engine.cpp", "#endif")] := by
+  decide +kernel
 
 end Strengths.CppStatics
